@@ -121,7 +121,9 @@ func MathModel(fn string, a []float64) (float64, MathKind) {
 		case math.IsInf(y, -1) && math.IsInf(x, -1):
 			return -3 * math.Pi / 4, MathApprox
 		}
-		return math.Atan2(y, x), MathApprox
+		// the result has the sign of y in every row of 15.8.2.5 and for the mathematical function; Go's
+		// math.Atan2 loses it when y/x underflows to zero (y<0, x<0), so it is restored here
+		return math.Copysign(math.Atan2(y, x), y), MathApprox
 	case "ceil":
 		switch {
 		case math.IsNaN(x):
